@@ -102,6 +102,8 @@ template <class K> struct Slot {
     Workspace ws;
     int last_cls = XC_NONE;
     double last_thresh = 1.0;
+    bool lu_mc64 = false;         // factors come from gsisx with an MC64 row permutation folded into perm_r
+    int pat_symmode = 0;          // SymmetricMode the remembered ordering / etree was computed for
     bool lu_nostruct = false;     // factors of an incomplete LU that re-used a row permutation: structure not judged (C15's content)
 };
 
@@ -428,6 +430,7 @@ template <class K> struct World {
         if (query && o.fact == FACTORED) { r.skipped = true; r.skip_reason = "query with FACTORED"; return; }
         if (o.trans == CONJ && s.storage == 1 && K::cplx) o.trans = TRANS; // CONJ on row storage: outside the claimed properties
         if (s.storage == 1 && ilu) { /* fine */ }
+        if (o.fact != DOFACT) o.symmode = s.pat_symmode; else if (!query) s.pat_symmode = o.symmode;
         DriverArgs a; memset(&a.B, 0, sizeof a.B); memset(&a.X, 0, sizeof a.X);
         a.s = &s; a.o = &o; set_options(o, a.opt, ilu);
         Snapshot pre_args;           // for the query / resolve purity oracles
@@ -500,7 +503,7 @@ template <class K> struct World {
             memcpy(s.Rs, saveR.data(), n * sizeof(R)); memcpy(s.Cs, saveC.data(), n * sizeof(R)); memcpy(s.perm_c, savePc.data(), n * sizeof(int));
             memcpy(s.etree, saveEt.data(), n * sizeof(int)); memcpy(s.perm_r, savePr.data(), n * sizeof(int));
         } else if (factored_now) {
-            s.last_cls = r.cls; s.last_thresh = o.thresh;
+            s.last_cls = r.cls; s.last_thresh = o.thresh; s.lu_mc64 = ilu && o.rowperm != NOROWPERM;
             if (r.cls == XC_OK || r.cls == XC_ILLCOND || r.cls == XC_SINGULAR) {
                 s.haveLU = true; s.lu_lwork = o.lwork; s.lu_ilu = ilu; s.have_pattern = true;
                 s.lu_valid = (r.cls != XC_SINGULAR) || ilu;
@@ -767,7 +770,7 @@ template <class K> struct World {
                       SuperMatrix B, X; S *b, *x; int nrhs, ld, ldx; R *ferr, *berr; R rcond; int info2; mem_usage_t mu; bool ilu; };
     static void body_pipe_factor(World *w, void *p) {
         PipeArgs *a = (PipeArgs *)p; Slot<K> &s = *a->s;
-        if (a->o->colperm != MY_PERMC) get_perm_c(a->o->colperm, &s.A, s.perm_c);
+        if (a->o->colperm != MY_PERMC && a->opt.Fact == DOFACT) get_perm_c(a->o->colperm, &s.A, s.perm_c);
         sp_preorder(&a->opt, &s.A, s.perm_c, s.etree, &a->AC); a->haveAC = true;
         int panel = sp_ienv(1), relax = sp_ienv(2);
         if (a->ilu) K::gsitrf(&a->opt, &a->AC, relax, panel, s.etree, a->work, a->lwork, s.perm_c, s.perm_r, &s.L, &s.U, &s.Glu, &a->stat, &a->info);
@@ -786,12 +789,22 @@ template <class K> struct World {
         int m = s.m, n = s.n; bool query = (o.lwork == -1);
         if (m != n && (o.colperm == MMD_AT_PLUS_A || o.symmode)) { o.colperm = COLAMD; o.symmode = 0; }
         if (ilu && m != n) { r.skipped = true; r.skip_reason = "ILU needs square"; return; }
-        destroy_lu(s);
+        // re-factoring through the computational routines, as the expert driver does it internally: Fact = SamePattern keeps perm_c and
+        // the etree (no get_perm_c), SamePattern_SameRowPerm also hands L, U, Glu and perm_r back to the factor routine
+        int fact = (o.fact == SamePattern || o.fact == SamePattern_SameRowPerm) ? o.fact : DOFACT;
+        if (fact == SamePattern && !(s.have_pattern && s.last_cls != XC_NOSPACE)) { r.skipped = true; r.skip_reason = "SamePattern without a remembered ordering"; return; }
+        if (fact == SamePattern_SameRowPerm && (query || s.lu_mc64 || !(s.lu_valid && s.lu_ilu == ilu && s.have_pattern))) { r.skipped = true; r.skip_reason = "SameRowPerm without valid factors of the same kind"; return; }
+        if (fact != DOFACT) o.symmode = s.pat_symmode;
+        bool readopt = (fact == SamePattern_SameRowPerm);
+        if (!readopt) destroy_lu(s);
         adopt_values(s, o);
         write_values(s, s.orig.re, s.orig.im); s.equed[0] = 'N';
-        if (o.lwork > 0) s.ws.alloc(o.lwork, o.align, o.wsgarbage, wsrng); else s.ws.release();
-        PipeArgs a; memset(&a.AC, 0, sizeof a.AC); a.haveAC = false; a.s = &s; a.o = &o; a.ilu = ilu; set_options(o, a.opt, ilu); a.opt.Fact = DOFACT;
-        if (o.colperm == MY_PERMC) make_permc(o.permc_seed, n, s.perm_c);
+        if (readopt) { o.lwork = s.lu_lwork; o.align = s.ws.align; }
+        else if (o.lwork > 0) s.ws.alloc(o.lwork, o.align, o.wsgarbage, wsrng); else s.ws.release();
+        std::vector<int> prev_permr; if (readopt) prev_permr.assign(s.perm_r, s.perm_r + m);
+        PipeArgs a; memset(&a.AC, 0, sizeof a.AC); a.haveAC = false; a.s = &s; a.o = &o; a.ilu = ilu; set_options(o, a.opt, ilu); a.opt.Fact = (fact_t)fact;
+        if (fact == DOFACT) s.pat_symmode = o.symmode;
+        if (o.colperm == MY_PERMC && fact == DOFACT) make_permc(o.permc_seed, n, s.perm_c);
         a.work = (o.lwork > 0) ? (void *)s.ws.work : nullptr; a.lwork = (int_t)o.lwork; a.info = -777; a.info2 = -777; r.lwork_used = o.lwork;
         StatInit(&a.stat);
         uint64_t steps0 = ctx->steps;
@@ -807,7 +820,10 @@ template <class K> struct World {
         if (query) r.query_estimate = r.info - n;
         bool have = (r.cls == XC_OK || r.cls == XC_SINGULAR);
         s.last_cls = r.cls; s.last_thresh = o.thresh;
-        if (have) { s.haveLU = true; s.lu_lwork = o.lwork; s.lu_ilu = ilu; s.lu_valid = (r.cls == XC_OK) || ilu; s.have_pattern = true; r.expansions = a.stat.expansions; }
+        s.lu_mc64 = false;
+        if (have) { s.haveLU = true; s.lu_lwork = o.lwork; s.lu_ilu = ilu; s.lu_valid = (r.cls == XC_OK) || ilu; s.have_pattern = true; r.expansions = a.stat.expansions; s.lu_nostruct = (ilu && readopt); }
+        else if (r.cls == XC_NOSPACE) drop_lu_after_nospace(s, readopt);
+        if (readopt && have) r.permr_changed = memcmp(prev_permr.data(), s.perm_r, m * sizeof(int)) != 0;
         if (ilu && r.cls == XC_SINGULAR) r.cls = XC_OK;
         if (ilu && have) { bool hole = false; for (int i = 0; i < m; i++) if (s.perm_r[i] < 0 || s.perm_r[i] >= m) hole = true;
             if (hole) { r.cls = XC_BREAKDOWN; s.lu_valid = false; s.last_cls = XC_BREAKDOWN; have = false; } }
@@ -815,7 +831,7 @@ template <class K> struct World {
         if (cfg.capture) { sn.val("info", r.cls == XC_NOSPACE ? (long)-1 : r.info); sn.val("cls", r.cls); }
         if (have) {
             if (s.lu_lwork > 0) { serr = check_lu_inside_workspace(s); if (!serr.empty()) viol(r, "workspace", serr); }
-            if (serr.empty() && cfg.chk_structure) {
+            if (serr.empty() && cfg.chk_structure && !s.lu_nostruct) {
                 bool weak = (r.cls == XC_SINGULAR && !ilu);
                 serr = check_structure<K>(&s.L, &s.U, m, n, weak ? nullptr : s.perm_r, weak ? nullptr : s.perm_c, ilu, caps_of(s), weak);
                 if (!serr.empty() && !weak) viol(r, "structure:" + serr.substr(0, serr.find(' ')), serr);
